@@ -1,6 +1,7 @@
 package main
 
 import (
+	"bytes"
 	"encoding/json"
 	"io"
 	"math/rand"
@@ -27,7 +28,7 @@ type rwCase struct {
 	Method  string   `json:"method"`
 	Flusher *bool    `json:"flusher,omitempty"` // whether the underlying writer implements http.Flusher (default true)
 	Steps   []rwStep `json:"steps"`
-	Wrap    int      `json:"wrap,omitempty"` // 3: the writer handed to NewResponseWriter is itself a flamego ResponseWriter (created for GET), e.g. a nested Flame; 1, 2: it is not
+	Wrap    int      `json:"wrap,omitempty"` // 3: the writer handed to NewResponseWriter is itself a flamego ResponseWriter (created for GET), e.g. a nested Flame; 1, 2: it is not; 2: body writes are made with io.Copy
 }
 
 // rwSpyPlain is the same spy without Flush / Push: an underlying writer that is only an http.ResponseWriter.
@@ -69,6 +70,16 @@ func (s *rwSpy) Write(b []byte) (int, error) {
 	}
 	return n, nil
 }
+// ReadFrom makes the spy an io.ReaderFrom, like the response writer of a net/http server connection: whoever hands it a
+// source directly has it written as a body
+func (s *rwSpy) ReadFrom(r io.Reader) (int64, error) {
+	b, err := io.ReadAll(r)
+	if err != nil {
+		return 0, err
+	}
+	n, err := s.Write(b)
+	return int64(n), err
+}
 func (s *rwSpy) Flush() { s.log = append(s.log, rwEntry{K: "flush"}) }
 func (s *rwSpy) Push(string, *http.PushOptions) error {
 	s.log = append(s.log, rwEntry{K: "push"})
@@ -101,7 +112,13 @@ func rwReplay(raw json.RawMessage, idx int, tr *traceWriter) {
 			w.WriteHeader(o.Code)
 		case "Write":
 			spy.accept = o.Acc
-			_, _ = w.Write(make([]byte, o.N))
+			if c.Wrap == 2 && o.N > 0 {
+				// the body is streamed with io.Copy from a source without WriteTo (a file, an upstream body): one Write of N bytes
+				// to a writer without ReadFrom, and Copy looks for ReadFrom on the destination first
+				_, _ = io.Copy(w, io.LimitReader(bytes.NewReader(make([]byte, o.N)), int64(o.N)))
+			} else {
+				_, _ = w.Write(make([]byte, o.N))
+			}
 		case "Flush":
 			w.Flush()
 		case "Before":
